@@ -58,11 +58,18 @@ def _kinds(test):
   return out
 
 def _complex_assign(stmt):
-  """The Assign branch: for name_node in last_expr.targets: if Name: append else: complex_assign = Module([Assign(targets, value=?)]).
-  Returns 'result' when value is Name(RESULT_KEY), 'reevaluate' when it is last_expr.value."""
+  """The Assign branch: for name_node in last_expr.targets: if Name: append else: complex_assign = Module([Assign(targets, value=?)]),
+  optionally followed by `if complex_assign is not None: result_vars = [RESULT_KEY]`.
+  Returns ('result' when value is Name(RESULT_KEY) | 'reevaluate' when it is last_expr.value, names_first)."""
   want_if = ast.parse("if isinstance(last_expr, ast.Assign):\n  pass").body[0]
-  if not (isinstance(stmt, ast.If) and ast.dump(stmt.test) == ast.dump(want_if.test) and not stmt.orelse and len(stmt.body) == 1):
+  if not (isinstance(stmt, ast.If) and ast.dump(stmt.test) == ast.dump(want_if.test) and not stmt.orelse and len(stmt.body) in (1, 2)):
     raise TranslationError('the Assign branch of the last-statement handling changed')
+  # with a non-name target: are the name targets bound separately first (names_first) or only by the assignment itself?
+  names_first = True
+  if len(stmt.body) == 2:
+    if ast.dump(stmt.body[1]) != _d("if complex_assign is not None:\n  result_vars = [RESULT_KEY]"):
+      raise TranslationError('unrecognised statement after the loop over the targets: %s' % ast.dump(stmt.body[1])[:200])
+    names_first = False
   loop = stmt.body[0]
   if not (isinstance(loop, ast.For) and ast.dump(loop.target) == "Name(id='name_node', ctx=Store())"
           and ast.dump(loop.iter) == ast.dump(ast.parse('last_expr.targets').body[0].value) and not loop.orelse and len(loop.body) == 1):
@@ -75,7 +82,7 @@ def _complex_assign(stmt):
   for value_src, tag in (('ast.Name(id=RESULT_KEY, ctx=ast.Load())', 'result'), ('last_expr.value', 'reevaluate')):
     want = _d("complex_assign = ast.Module(body=[ast.Assign(targets=last_expr.targets, value=%s)], type_ignores=[])" % value_src)
     if ast.dump(ca) == want:
-      return tag
+      return tag, names_first
   raise TranslationError('the assignment built for non-name targets changed: %s' % ast.dump(ca)[:300])
 
 def translate(repo=None):
@@ -105,12 +112,12 @@ def translate(repo=None):
   take(COMPLEX_NONE, 'complex_assign = None')
   if not b:
     raise TranslationError('evaluate(): result branch ends early')
-  reuse = _complex_assign(b.pop(0))
+  reuse, names_first = _complex_assign(b.pop(0))
   take(TO_EXPRESSION, 'last_expr = ast.Expression(last_expr.value)')
   if not b or not _try_of(b[0], [EXEC_BODY, EVAL_LAST]):
     raise TranslationError('evaluate(): expected try: exec(body); result = eval(last) except: CodeError')
   b.pop(0); plan += ['ExecBody', 'EvalLast']
-  take(BIND_NAMES, 'for result_var in result_vars: global_vars[result_var] = result'); plan.append('BindResultNames')
+  take(BIND_NAMES, 'for result_var in result_vars: global_vars[result_var] = result'); plan.append('BindResultNames %s' % ('true' if names_first else 'false'))
   if not b:
     raise TranslationError('evaluate(): the complex assignment is never executed')
   ca = b.pop(0)
